@@ -65,7 +65,7 @@ def run(ctx):
     ctx.cov["pool_events_validated"] = sum(len(t["log"]) for t in traces)
     ctx.cov["objects_tracked"] = sum(len(set(e["o"] for e in t["log"])) for t in traces)
     ctx.cov["concurrent_calls"] = sum(t["calls"] for t in traces)
-    ctx.cov["traces_by_mode"] = {m: sum(1 for t in traces if t["mode"] == m) for m in ("history", "stress", "retx", "tcpbw", "dupcache")}
+    ctx.cov["traces_by_mode"] = {m: sum(1 for t in traces if t["mode"] == m) for m in ("history", "stress", "retx", "tcpbw", "dupcache", "bwpark")}
     for clause, idxs in sorted(bad.items()):
         ts = [traces[i] for i in idxs]
         t0 = min(ts, key=lambda t: len(t["log"]))
@@ -74,6 +74,11 @@ def run(ctx):
         for e in t0["log"]:
             byobj.setdefault(e["o"], []).append(e["ev"])
         susp = [v for v in byobj.values() if any(x.startswith("changed") for x in v) or v.count("release") + v.count("apprelease") > v.count("acquire") + 1 or ("hold" in v and "release" in v)]
+        if t0["mode"] == "bwpark":
+            vf.report(ctx, clause, {"mode": "bwpark"},
+                      "%d run(s): a block-wise upload whose context ended while the receive path was cutting the next block out of the request - the request call returned and the library accessed the request's body %d more time(s) afterwards" % (len(ts), t0["garbled"]),
+                      {"trace": {k: t0[k] for k in t0 if k != "log"}, "cmd": "bin/check C12 --tier %s" % ctx.tier})
+            continue
         vf.report(ctx, clause, {"mode": t0["mode"], "poolSize": t0["poolSize"], "kinds": t0["kinds"][:6]},
                   "%d run(s) [%s, pool size %d] break the ownership automaton; e.g. history %s, event sequences of suspicious objects: %s" % (
                       len(ts), t0["mode"], t0["poolSize"], t0["kinds"][:10], json.dumps(susp[:3])[:400]),
